@@ -18,6 +18,11 @@ Four parts, all exhaustive within the bound (mc.models.glob is the oracle, a bac
                       io.BytesIO in another 8-bit encoding with encoding= (the "parse" route itself is a list of lines with newlines); x every name (two
                       paragraphs: every name of length 0..2).
 Every pattern list is installed both with FilesParagraph.create() and by parsing a document (strict).
+  listroutes          a sub-space of the lists (singles of length <= 2, pairs) installed / asked the other public ways
+                      (LIST_ROUTES: tuples, iterators, constructors over a Deb822 mapping, assignment after a first use, edits of
+                      the kept Deb822 object, copies, other layouts of the Files field, strict=False, keyword arguments,
+                      globs_to_re on its own) x every name; doc routes (DOC_ROUTES_NEW) likewise for find_files_paragraph; the
+                      history explorer also runs with assignments going through the kept Deb822 object (route "data").
 """
 import io
 import warnings
@@ -39,7 +44,9 @@ RULE = ("Engine B: states = pattern lists generated (trie of patterns, then of l
         "pattern lists built around one swept literal, transitions = the same, traces = (route, list, name) triples, "
         "each on a fresh paragraph (a few coincide with triples of the single/pairs parts).  dockinds: the way the "
         "document text reaches Copyright(...) is one more choice below (document, route 'parse'): states = documents, "
-        "traces = (input kind, document, name) triples on find_files_paragraph, non-trivial as for doc")
+        "traces = (input kind, document, name) triples on find_files_paragraph, non-trivial as for doc.  listroutes: states = "
+        "pattern lists, traces = (route, list, name) triples, each list installed once per route and asked every name; "
+        "non-trivial as for single")
 BUDGET = {"quick": 240, "thorough": 3000}
 
 HEADER = "Format: https://www.debian.org/doc/packaging-manuals/copyright-format/1.0/\n"
@@ -67,6 +74,20 @@ def bounds(tier):
             "pairs": "all ordered pairs of patterns of length 1..2 (42^2 lists)",
             "triples": "all triples of patterns of length 1 (6^3 lists)",
             "routes": list(ROUTES),
+            "list_routes": {"routes": list(LIST_ROUTES),
+                            "lists": "every single pattern of length 1..2 and every ordered pair of patterns of length 1 (78 lists) x "
+                                     "every name of length 0..%d, all routes; every ordered pair of patterns of length 1..2 (42^2 lists) x "
+                                     "every name of length 0..2, the routes %s" % (n, LIST_ROUTES_PAIRS),
+                            "long_lists": "%d lists of 1..8 copies of %r after a lead-in pattern of 0..13 characters (joined text of "
+                                          "13..125 characters) x names %r x routes %s" % (len(long_lists()), LONG_PATTERN, LONG_NAMES, LONG_ROUTES),
+                            "warm-up": "where a route edits or copies an existing paragraph, that paragraph first held %r and "
+                                       "answered for %r" % (WARM_LIST, WARM_NAME)},
+            "doc_routes": {"routes": list(DOC_ROUTES_NEW),
+                           "documents": "1 Files paragraph over the 6-list pool x all 4 gap subsets x every name of length 0..%d; 2 "
+                                        "Files paragraphs (36) x {no License paragraph, one between them, one in every gap} x every "
+                                        "name of length 0..2" % n},
+            "history_routes": "hist-graph / hist-tree also with route 'data': the paragraph wraps a Deb822 object the caller keeps, "
+                              "and 'files := L' is an assignment to that object's Files field",
             "doc_input_kinds": {"kinds": list(DOC_KINDS),
                                 "documents": "1 Files paragraph over the 6-list pool x all 4 gap subsets; 2 Files paragraphs (36) "
                                              "x {no License paragraph, one between them}; x every name of length 0..%d (one "
@@ -105,7 +126,24 @@ def assumptions():
             "the whole text as one str.  All of these parse the same document on the unchanged library, so every kind must "
             "give the same Files paragraphs and the same find_files_paragraph answers.  Lines 'without newline' are the text "
             "split at '\\n'.  encoding= is only passed together with bytes input (with str input a non-UTF-8 encoding= is not "
-            "what the docstring describes)"]
+            "what the docstring describes)",
+            "routes: the pattern list of a paragraph is whatever white-space-separated words its Files field holds, however "
+            "the field came into being - create() with a list / tuple / iterator, the files property assigned a list / tuple / "
+            "generator (also on a paragraph that already answered for another list), FilesParagraph(Deb822 mapping) with strict "
+            "True / False, an edit of the Deb822 object the caller kept (RestrictedWrapper: 'Subclasses may keep a reference to "
+            "the data before giving it to this class's constructor'; the pattern cache is keyed by the field text for that "
+            "reason), a parsed paragraph whose Files field is laid out on continuation lines / with tabs / runs of blanks / "
+            "trailing blanks, whose field names are lower or upper case (deb822 names are case-insensitive), whose Files "
+            "field comes last; a document parsed with strict=False (also with Files paragraphs that lack Copyright and "
+            "License, and with a paragraph that is neither Files nor License in every gap - both only complained about when "
+            "not strict); copy.copy / copy.deepcopy of a paragraph or document (the deep copy keeps answering for its own list "
+            "after the original was edited)",
+            "routes: globs_to_re(list / tuple / generator) is read with fullmatch, as matches() reads it (the regular "
+            "expression text is pinned by the repository's tests and end-anchors only its last alternative); an invalid "
+            "pattern must raise the format error from globs_to_re itself",
+            "routes left out: files_pattern() (the compiled expression is mechanism, not an answer the statement speaks of); "
+            "Files fields containing comment lines or other deb822 layer features; pickling (Deb822 objects hold weak "
+            "references)"]
 
 
 # ------------------------------------------------------------------------------------------------ alphabet
@@ -191,6 +229,193 @@ def _sweep(part, u):
     return part
 
 
+
+# ------------------------------------------------------------------------------------------------ routes
+# "the other way in": the same pattern list installed, and the same question asked, the other public ways.
+
+LIST_ROUTES = ["create-tuple", "create-iterator", "constructor", "constructor-nonstrict", "set-after-create", "set-tuple",
+               "set-generator", "data-edit", "deepcopy", "deepcopy-then-original-edited", "copy", "matches-keyword",
+               "parse-multiline", "parse-multiline-first-on-field-line", "parse-tab", "parse-blanks", "parse-lowercase",
+               "parse-uppercase", "parse-files-last", "parse-nonstrict", "parse-nonstrict-files-only",
+               "globs_to_re-list", "globs_to_re-tuple", "globs_to_re-generator"]
+# the routes in which the list reaches the library as more than one thing (words of a laid-out field, items drawn from an
+# iterator, ...) - these are also run over every ordered pair of patterns of length 1..2
+LIST_ROUTES_PAIRS = ["create-iterator", "constructor", "set-generator", "data-edit", "deepcopy-then-original-edited",
+                     "parse-multiline", "parse-multiline-first-on-field-line", "parse-tab", "parse-blanks", "parse-files-last",
+                     "parse-nonstrict-files-only", "globs_to_re-generator"]
+WARM_LIST, WARM_NAME = ["zz*"], "zzz"
+
+
+class _ReAdapter(object):
+    """globs_to_re(...) read the way matches() reads it: the whole name must be matched"""
+
+    def __init__(self, files, pat):
+        self.files = tuple(files)
+        self.pat = pat
+
+    def matches(self, name):
+        return self.pat.fullmatch(name) is not None
+
+
+class _KeywordAdapter(object):
+    def __init__(self, fp):
+        self.fp = fp
+
+    @property
+    def files(self):
+        return self.fp.files
+
+    def matches(self, name):
+        return self.fp.matches(filename=name)
+
+
+def _fields_text(files, layout):
+    f = " ".join(files)
+    if layout == "parse-multiline":
+        return "Files:\n" + "".join(" %s\n" % p for p in files) + "Copyright: c\nLicense: l\n"
+    if layout == "parse-multiline-first-on-field-line":
+        return "Files: " + "\n ".join(files) + "\nCopyright: c\nLicense: l\n"
+    if layout == "parse-tab":
+        return "Files:\t" + "\t".join(files) + "\t\nCopyright: c\nLicense: l\n"
+    if layout == "parse-blanks":
+        return "Files:    " + "   ".join(files) + "  \nCopyright: c\nLicense: l\n"
+    if layout == "parse-lowercase":
+        return "files: %s\ncopyright: c\nlicense: l\n" % f
+    if layout == "parse-uppercase":
+        return "FILES: %s\nCOPYRIGHT: c\nLICENSE: l\n" % f
+    if layout == "parse-files-last":
+        return "Copyright: c\nLicense: l\nComment: x\nFiles: %s\n" % f
+    if layout == "parse-nonstrict-files-only":
+        return "Files: %s\n" % f
+    return files_text(files)
+
+
+def build_route(files, route):
+    """-> ('ok', object with .files and .matches) | ('fail', 'ERR' | ('raise', cls))"""
+    import copy
+    C = _copyright()
+    from debian import deb822
+    try:
+        if route == "create-tuple":
+            return ("ok", C.FilesParagraph.create(tuple(files), "c", C.License("l")))
+        if route == "create-iterator":
+            return ("ok", C.FilesParagraph.create(iter(list(files)), "c", C.License("l")))
+        if route in ("constructor", "constructor-nonstrict"):
+            d = deb822.Deb822({"Files": " ".join(files), "Copyright": "c", "License": "l"})
+            return ("ok", C.FilesParagraph(d, strict=(route == "constructor")))
+        if route in ("set-after-create", "set-tuple", "set-generator"):
+            fp = C.FilesParagraph.create(list(WARM_LIST), "c", C.License("l"))
+            fp.matches(WARM_NAME)
+            fp.files = list(files) if route == "set-after-create" else tuple(files) if route == "set-tuple" else (p for p in list(files))
+            return ("ok", fp)
+        if route == "data-edit":
+            # "Subclasses may keep a reference to the data before giving it to this class's constructor": the pattern
+            # is cached by the text of the Files field, so the paragraph follows an edit of the underlying mapping
+            d = deb822.Deb822({"Files": " ".join(WARM_LIST), "Copyright": "c", "License": "l"})
+            fp = C.FilesParagraph(d)
+            fp.matches(WARM_NAME)
+            d["Files"] = " ".join(files)
+            return ("ok", fp)
+        if route in ("deepcopy", "deepcopy-then-original-edited", "copy"):
+            fp0 = C.FilesParagraph.create(list(files), "c", C.License("l"))
+            try:
+                fp0.matches(WARM_NAME)
+            except ValueError:
+                pass
+            fp = copy.copy(fp0) if route == "copy" else copy.deepcopy(fp0)
+            if route == "deepcopy-then-original-edited":
+                fp0.files = list(WARM_LIST)
+                fp0.matches(WARM_NAME)
+            return ("ok", fp)
+        if route == "matches-keyword":
+            return ("ok", _KeywordAdapter(C.FilesParagraph.create(list(files), "c", C.License("l"))))
+        if route.startswith("parse-"):
+            strict = not route.startswith("parse-nonstrict")
+            doc = C.Copyright((HEADER + "\n" + _fields_text(files, route)).splitlines(True), strict=strict)
+            ps = list(doc.all_files_paragraphs())
+            if len(ps) != 1:
+                return ("fail", ("paragraphs", len(ps)))
+            return ("ok", ps[0])
+        if route.startswith("globs_to_re-"):
+            arg = list(files) if route.endswith("-list") else tuple(files) if route.endswith("-tuple") else (p for p in list(files))
+            return ("ok", _ReAdapter(files, C.globs_to_re(arg)))
+    except Exception as e:
+        return ("fail", _exc(C, e))
+    raise AssertionError(route)
+
+
+def run_listroute_case(case):
+    files, name, route = case["files"], case["name"], case["via"]
+    res = build_route(files, route)
+    j = judge_build(files, res)
+    if not j and res[0] == "ok":
+        for nm in case.get("before", []):
+            observe(res[1], nm)
+        j = judge(files, name, observe(res[1], name))
+    return [("via-%s/%s" % (route, j[0]),) + tuple(j[1:])] if j else []
+
+
+LONG_PATTERN = "third-party/*"         # 13 characters with a hyphen: a place where text-folding code likes to break
+LONG_ROUTES = ["create-tuple", "create-iterator", "constructor", "set-after-create", "set-tuple", "data-edit", "deepcopy",
+               "parse-multiline", "globs_to_re-list"]
+LONG_NAMES = ["third-party/x", "party/x", "third-", "third-party/", "hird-party/x", "x"]
+
+
+def long_lists():
+    """Files lists whose joined text is 13 .. 125 characters long, a hyphen on every column from 5 to 120"""
+    out = []
+    for k in range(1, 9):
+        for o in range(0, 14):
+            out.append((["x" * o] if o else []) + [LONG_PATTERN] * k)
+    return out
+
+
+def listroute_lists(u):
+    pa = u["pa"]
+    if u["space"] == "long-lists":
+        return long_lists()
+    if u["space"] == "small-lists":
+        return [[p] for p in strings(pa, 1, 2)] + [[p, q] for p in pa for q in pa]
+    return [[u["first"], q] for q in strings(pa, 1, 2)]
+
+
+def _listroutes(part, u):
+    names = u.get("names") or strings(u["na"], 0, u["n"])
+    lists = listroute_lists(u)
+    for files in lists:
+        part.states += 1
+        part.transitions += 1
+        exp = [expected(files, nm) for nm in names]
+        for route in u["routes"]:
+            res = build_route(files, route)
+            part.evaluations += 1
+            j = judge_build(files, res)
+            if j:
+                part.violation("via-%s/%s" % (route, j[0]), {"part": "listroute", "via": route, "files": list(files), "name": ""}, j[1], j[2], rank=50)
+                continue
+            if res[0] != "ok":
+                part.outcomes["via-%s:rejected-when-installed" % route] += 1
+                continue
+            for qi, nm in enumerate(names):
+                got = observe(res[1], nm)
+                part.traces += 1
+                part.evaluations += 1
+                if got != exp[qi]:
+                    case = {"part": "listroute", "via": route, "files": list(files), "name": nm}
+                    j = judge(files, nm, got)
+                    if not run_listroute_case(case):
+                        case["before"] = names[:qi]        # a fresh object answers differently: replay the earlier questions
+                        j = ("history-dependent/" + j[0],) + tuple(j[1:])
+                    part.violation("via-%s/%s" % (route, j[0]), case, j[1], j[2], rank=50)
+                elif exp[qi] is not False:
+                    part.nontrivial += 1
+            part.outcomes["via-%s:%s x%d" % (route, "format-error" if exp[0] == "ERR" else "answers", len(files))] += 1
+            part.extra["lists installed via " + route] += 1
+    part.max_depth = 2
+    part.sample({"part": "listroute", "via": u["routes"][0], "files": lists[-1], "name": names[-1]})
+    return part
+
+
 # ------------------------------------------------------------------------------------------------ units
 
 def units(tier, seed):
@@ -216,9 +441,9 @@ def units(tier, seed):
         out.append({"part": "sweep", "chars": sc[i:i + SWEEP_CHUNK]})
     lists, names = hist_menu(seed)
     depth = HIST_DEPTH[tier]
-    for route in ROUTES:
+    for route in ROUTES + ("data",):
         out.append({"part": "hist-graph", "route": route, "lists": lists, "names": names})
-    for route in ROUTES:
+    for route in ROUTES + ("data",):
         for init in range(len(lists)):
             out.append({"part": "hist-tree", "route": route, "lists": lists, "names": names, "init": init,
                         "depth": depth})
@@ -245,6 +470,17 @@ def units(tier, seed):
     for i in range(len(pool)):
         out.append(dict(base, n=2, part="doc", pool=pool, k=2, fixed=[i], masks=[0, 2], routes=["parse:" + k for k in DOC_KINDS],
                         kinds=True))
+    # ... and the other ways a document comes into being or is asked (DOC_ROUTES_NEW)
+    out.append(dict(base, part="doc", pool=pool, k=1, fixed=[], routes=list(DOC_ROUTES_NEW), kinds=True))
+    for i in range(len(pool)):
+        out.append(dict(base, n=2, part="doc", pool=pool, k=2, fixed=[i], masks=[0, 2, 7], routes=list(DOC_ROUTES_NEW), kinds=True))
+    # the other ways a pattern list is installed in ONE paragraph and asked (LIST_ROUTES)
+    for i in range(0, len(LIST_ROUTES), 4):
+        out.append(dict(base, part="listroutes", space="small-lists", routes=LIST_ROUTES[i:i + 4]))
+    for p in short:
+        out.append(dict(base, n=2, part="listroutes", space="pairs", first=p, routes=list(LIST_ROUTES_PAIRS)))
+    # ... and lists long enough to be folded by whoever writes the field
+    out.append(dict(base, part="listroutes", space="long-lists", routes=list(LONG_ROUTES), names=list(LONG_NAMES)))
     # ... with other runs of empty and white-space-only lines between the paragraphs
     for i in range(len(pool)):
         out.append(dict(base, n=2, part="doc", pool=pool, k=2, fixed=[i], masks=[0, 2, 7], routes=["parse:" + k for k in SEP_KINDS],
@@ -269,6 +505,8 @@ def unit_cost(u, tier):
         return 36 * (7 ** u["n"]) * 3
     if part == "sweep":
         return len(u["chars"]) * 6 * 7 * 2 * 30
+    if part == "listroutes":
+        return (78 if u["space"] == "small-lists" else 42) * len(u["routes"]) * (7 ** u["n"]) * 3
     if part == "hist-tree":
         return (9 ** u["depth"]) * 4
     if part == "hist-graph":
@@ -309,6 +547,16 @@ def build(files, route):
     try:
         if route == "create":
             return ("ok", C.FilesParagraph.create(list(files), "c", C.License("l")))
+        if route == "data":
+            # the paragraph is a view of a Deb822 object the caller keeps ("Subclasses may keep a reference to the data
+            # before giving it to this class's constructor"); later edits go through that object
+            from debian import deb822
+            d = deb822.Deb822({"Files": " ".join(files), "Copyright": "c", "License": "l"})
+            fp = C.FilesParagraph(d, strict=True)
+            if len(_KEPT_DATA) > 8:
+                _KEPT_DATA.clear()          # only the paragraphs of the history being replayed are ever edited
+            _KEPT_DATA[id(fp)] = (fp, d)
+            return ("ok", fp)
         doc = C.Copyright((HEADER + "\n" + files_text(files)).splitlines(True), strict=True)
         ps = list(doc.all_files_paragraphs())
         if len(ps) != 1:
@@ -328,10 +576,17 @@ def observe(fp, name):
     return ("value", repr(r))
 
 
+_KEPT_DATA = {}
+
+
 def set_files(fp, files):
     C = _copyright()
     try:
-        fp.files = list(files)
+        kept = _KEPT_DATA.get(id(fp))
+        if kept is not None and kept[0] is fp:
+            kept[1]["Files"] = " ".join(files)
+        else:
+            fp.files = list(files)
     except Exception as e:
         return _exc(C, e)
     return None
@@ -532,6 +787,8 @@ def run_unit(u, tier, seed):
         return part
     if kind == "sweep":
         return _sweep(part, u)
+    if kind == "listroutes":
+        return _listroutes(part, u)
     if kind == "hist-graph":
         return _hist_graph(part, u)
     if kind == "hist-tree":
@@ -625,7 +882,15 @@ def _dochist(part, u):
 # ------------------------------------------------------------------------------------------------ part 3
 
 def run_history(case):
-    """Replays one history on a fresh paragraph; -> (violations, model state, list_changed_between_matches)."""
+    """Replays one history on a fresh paragraph; -> (violations, model state, list_changed_between_matches).
+    A failure on a route other than create / parse carries the route in its signature."""
+    bad, st, changed = _run_history(case)
+    if bad and case["route"] not in ROUTES:
+        bad = [("via-%s/%s" % (case["route"], b[0]),) + tuple(b[1:]) for b in bad]
+    return bad, st, changed
+
+
+def _run_history(case):
     lists, names, route = case["lists"], case["names"], case["route"]
     cur = case["init"]
     res = build(lists[cur], route)
@@ -779,6 +1044,26 @@ MIXED_KINDS = ["mixed-bytes-lines", "mixed-BytesIO"]
 MIXED_LINE = "Comment: Sim\xf3n Garc\xeda\n".encode("latin-1")
 
 
+# the other ways a document comes into being / is asked (see build_doc): layouts of the Files paragraph in the text,
+# non-strict parsing, paragraphs made by the constructors, taken over from a parsed document, a deep copy of a document
+DOC_TEXT_KINDS = {"files-multiline": "parse-multiline", "lowercase": "parse-lowercase", "files-last": "parse-files-last",
+                  "nonstrict": "", "nonstrict-files-only": "parse-nonstrict-files-only", "nonstrict-junk": ""}
+DOC_ROUTES_NEW = ["parse:" + k for k in DOC_TEXT_KINDS] + ["api:constructor", "api:tuple-files", "api:from-parsed", "api:deepcopy",
+                                                            "api:find-keyword"]
+JUNK_TEXT = "X-Neither-Files-Nor-License: 1\n"
+
+
+class _FindKeyword(object):
+    def __init__(self, doc):
+        self.doc = doc
+
+    def all_files_paragraphs(self):
+        return self.doc.all_files_paragraphs()
+
+    def find_files_paragraph(self, name):
+        return self.doc.find_files_paragraph(filename=name)
+
+
 def other_encoding(text):
     for enc in OTHER_ENCODINGS:
         try:
@@ -826,6 +1111,8 @@ def parse_doc(C, text, kind):
         return C.Copyright(io.BytesIO(text.encode(enc)), enc, True)
     if kind.startswith("sep="):
         return C.Copyright(text if kind.endswith("/str") else text.splitlines(True), strict=True)
+    if kind in DOC_TEXT_KINDS:
+        return C.Copyright(text.splitlines(True), strict=not kind.startswith("nonstrict"))
     if kind in MIXED_KINDS:
         lines = []
         for line in text.encode("utf-8").splitlines(True):
@@ -851,8 +1138,42 @@ def build_doc(layout, route):
         if route.startswith("parse"):
             kind = route.partition(":")[2]
             sep = SEPARATORS[kind[4:].partition("/")[0]] if kind.startswith("sep=") else "\n"
-            text = HEADER + "".join(sep + (files_text(p[1]) if p[0] == "F" else LIC_TEXT) for p in layout)
+            if kind == "nonstrict-junk":
+                sep = "\n" + JUNK_TEXT + "\n"      # a paragraph that is neither (skipped with a complaint when not strict)
+            text = HEADER + "".join(sep + (_fields_text(p[1], DOC_TEXT_KINDS.get(kind, "")) if p[0] == "F" else LIC_TEXT) for p in layout)
             doc = parse_doc(C, text, kind)
+        elif route == "api:from-parsed":
+            src = C.Copyright((HEADER + "".join("\n" + (files_text(p[1]) if p[0] == "F" else LIC_TEXT) for p in layout)).splitlines(True),
+                              strict=True)
+            doc = C.Copyright()
+            for q in list(src.all_paragraphs())[1:]:
+                if isinstance(q, C.FilesParagraph):
+                    doc.add_files_paragraph(q)
+                else:
+                    doc.add_license_paragraph(q)
+        elif route in ("api:constructor", "api:tuple-files", "api:deepcopy", "api:find-keyword"):
+            import copy
+            from debian import deb822
+            doc = C.Copyright()
+            for p in layout:
+                if p[0] == "F" and route == "api:constructor":
+                    doc.add_files_paragraph(C.FilesParagraph(deb822.Deb822({"Files": " ".join(p[1]), "Copyright": "c", "License": "l"})))
+                elif p[0] == "F":
+                    doc.add_files_paragraph(C.FilesParagraph.create(tuple(p[1]) if route == "api:tuple-files" else list(p[1]), "c", C.License("l")))
+                else:
+                    doc.add_license_paragraph(C.LicenseParagraph.create(C.License("l", "t")))
+            if route == "api:deepcopy":
+                orig = doc
+                try:
+                    orig.find_files_paragraph(WARM_NAME)
+                except ValueError:
+                    pass
+                doc = copy.deepcopy(orig)
+                for q in orig.all_files_paragraphs():          # the original goes its own way afterwards
+                    q.files = list(WARM_LIST)
+                orig.find_files_paragraph(WARM_NAME)
+            elif route == "api:find-keyword":
+                doc = _FindKeyword(doc)
         else:
             doc = C.Copyright()
             for p in layout:
@@ -1040,6 +1361,8 @@ def replay(case):
     part = case.get("part")
     if part == "list":
         return run_list_case(case)
+    if part == "listroute":
+        return run_listroute_case(case)
     if part == "hist":
         return run_history(case)[0]
     if part == "doc":
